@@ -54,10 +54,12 @@ Definition channel_types : list Z := gen_channel_types.
 Definition highest_userauth : Z := gen_highest_userauth.        (* HIGHEST_USERAUTH_MESSAGE_ID *)
 
 (* Transport.is_authenticated: active and auth_handler is not None and
-   auth_handler.is_authenticated() -- GssapiWithMicAuthHandler has no such method *)
+   auth_handler.is_authenticated().  During a gssapi-with-mic exchange the handler is a
+   GssapiWithMicAuthHandler, which (after fixes/C14-gssapi-with-mic-handler-table.diff) delegates to
+   the AuthHandler it wraps; before that repair the state "exchange pending and no packet expected"
+   cannot be reached through Transport.run at all (the first TOKEN raises TypeError). *)
 Definition is_authenticated (ts : tstate) : result bool :=
   if negb (a_active (t_auth ts)) then Ok false
-  else if a_gss (t_auth ts) then Raise AttrErr
   else Ok (a_authed (t_auth ts)).
 
 (* Transport._ensure_authed: None = go ahead, Some reply = refuse with this message *)
